@@ -978,6 +978,23 @@ func schedLoop(pl *Plan, sched []Quantum, tasks []*rt.Task, sw *schedWorld, fp0 
 	started := make([]bool, len(tasks))
 	var lastTask = -1
 	for live > 0 {
+		// A task that was taken for blocked may have run to its end meanwhile (it was only slow, or it
+		// was released): it has set Done and is waiting to say so. Quanta naming a finished task are
+		// skipped, so nobody would ever listen, live would never reach zero and the fallback below
+		// would find no task to run (seen as an index panic of the harness, exit 2, on a neutral
+		// change and once on the unchanged tree under heavy load).
+		for t, x := range tasks {
+			if x.Done && x.Detached {
+				<-x.Ev // Done is set immediately before the final send: this is EvFinish
+				x.Detached = false
+				rt.SlowIdent = detachedCount(tasks) > 0
+				live--
+				il.add("t" + strconv.Itoa(t) + ".end")
+			}
+		}
+		if live <= 0 {
+			break
+		}
 		var q Quantum
 		if qi < len(sched) {
 			q = sched[qi]
@@ -1002,6 +1019,9 @@ func schedLoop(pl *Plan, sched []Quantum, tasks []*rt.Task, sw *schedWorld, fp0 
 						break
 					}
 				}
+			}
+			if q.T < 0 {
+				break // every task has finished
 			}
 		}
 		tk := tasks[q.T]
